@@ -541,7 +541,10 @@ def plan_del(w: World, op: dict) -> Plan:
         found, rk = resolve_data(w, key)
         if not found:
             return Plan(SKIP)
-        cands = mt.carriers(mt.rule(rk))
+        try:
+            cands = mt.carriers(mt.rule(rk))
+        except TypeError:
+            return Plan(EXCLUDED, why="unhashable key in a tree without id callback")
 
     def call():
         del rt[rk]
